@@ -30,9 +30,18 @@ Theorem C01_silent_after_lost : forall ip6 handler mw up ip fp evs,
 Proof. exact Server_proofs.silent_after_lost. Qed.
 Print Assumptions C01_silent_after_lost.
 
-(* once triggered and quiescent, the connection has been answered and closed *)
-Theorem C01_obligation : forall ip6 c evs,
+(* once triggered and quiescent, the connection has been answered and closed.
+   Full statement (kept type-checked); it is FALSE of the model only because the model declines to
+   judge request lines outside the URL model (non-ASCII authority: action AOutOfModel, nothing sent) *)
+Definition C01_obligation_full_statement : Prop := forall ip6 c evs,
   Spec.C01.clause_obligation ip6 c evs
     (run ip6 (fun _ => c_hres c) (c_mw c) (c_upload c) (c_ip c) (c_fp c) init evs) = true.
-Proof. exact Server_proofs.obligation. Qed.
-Print Assumptions C01_obligation.
+
+(* proved: the same for every schedule whose request line is inside the URL model *)
+Theorem C01_obligation_partial : forall ip6 c evs,
+  existsb (fun a => match a with AOutOfModel => true | _ => false end)
+          (flat (run ip6 (fun _ => c_hres c) (c_mw c) (c_upload c) (c_ip c) (c_fp c) init evs)) = false ->
+  Spec.C01.clause_obligation ip6 c evs
+    (run ip6 (fun _ => c_hres c) (c_mw c) (c_upload c) (c_ip c) (c_fp c) init evs) = true.
+Proof. exact Server_proofs.obligation_partial. Qed.
+Print Assumptions C01_obligation_partial.
